@@ -162,6 +162,12 @@ def run(facts):
         if callname(e) in ("index", "get_unchecked") and is_self(e[2][0]):
             r = e[2][1]
             return isinstance(r, tuple) and r[0] == "agg" and "RangeFrom" in aggname(r) and uncast(r[2][0]) == P2
+        # `match self.get(cnt..) { Some(rest) => *self = rest, .. }`
+        if isinstance(e, tuple) and e and e[0] == "field" and isinstance(e[1], tuple) and e[1] and e[1][0] == "variant" and e[1][2] == "Some":
+            g = peel(e[1][1])
+            if callname(g) in ("get",) and is_self(g[2][0]):
+                r = g[2][1]
+                return isinstance(r, tuple) and r[0] == "agg" and "RangeFrom" in aggname(r) and uncast(r[2][0]) == P2
         if callname(e) in ("split_at", "split_at_unchecked"):
             return False
         return False
@@ -341,17 +347,46 @@ def check_vd_vectored(res, facts, b, slices):
         probs.append("the listed slices are not exactly the front and the back half")
     alts = ret_alts(b, facts)
     vals = sorted(const_of(a[1]) if const_of(a[1]) is not None else -1 for a in alts)
-    if vals != [0, 1, 2]:
+    if sorted(set(vals)) != [0, 1, 2]:
         probs.append("return values are %s, expected 0 / 1 / 2" % vals)
     for bi, e, rels in alts:
         v = const_of(e)
+        def got_slot(which):
+            """the path took the `Some` arm of dst.split_first_mut() / dst.first_mut() (which = 0) or of rest.first_mut() (which = 1)"""
+            for r in rels:
+                if not r or r[0] not in ("truth", "notin") or not (isinstance(r[1], tuple) and r[1] and r[1][0] == "discr"):
+                    continue
+                some = (r[0] == "truth" and r[2] == 1) or (r[0] == "notin" and set(r[2]) == {0})
+                c = peel(r[1][1])
+                if not some or callname(c) not in ("split_first_mut", "first_mut", "split_first", "first"):
+                    continue
+                src = peel(c[2][0])
+                if which == 0 and src == P2:
+                    return True
+                if which == 1 and isinstance(src, tuple) and src and src[0] == "field" and str(src[2]) == "1" and isinstance(src[1], tuple) and src[1] and src[1][0] == "field" \
+                        and isinstance(src[1][1], tuple) and src[1][1][0] == "variant" and callname(peel(src[1][1][1])) in ("split_first_mut", "split_first") and peel(peel(src[1][1][1])[2][0]) == P2:
+                    return True
+            return False
         if v == 2:
             if not truth(rels, lambda x: callname(x) == "is_empty" and slices(x[2][0], 1), 0):
                 probs.append("returns 2 without knowing the back slice is non-empty")
-            if not any(r[0] in ("ne", "lt") for r in rels):
+            def about_dst_len(r):
+                """dst.len() != 1 / 1 < dst.len() / 2 <= dst.len() (with the non-emptiness known separately): a second slot exists"""
+                if not r or len(r) < 3 or not isinstance(r[1], tuple) or not isinstance(r[2], tuple):
+                    return False
+                is_len = lambda y: callname(peel(y)) == "len" and peel(peel(y)[2][0]) == P2
+                a, b_ = canon(r[1]), canon(r[2])
+                if r[0] == "ne" and ((is_len(a) and const_of(b_) == 1) or (is_len(b_) and const_of(a) == 1)):
+                    return True
+                if r[0] == "lt" and const_of(a) is not None and const_of(a) >= 1 and is_len(b_):
+                    return True
+                if r[0] == "le" and const_of(a) is not None and const_of(a) >= 2 and is_len(b_):
+                    return True
+                return False
+            if not any(about_dst_len(r) for r in rels) and not got_slot(1):
                 probs.append("returns 2 without knowing dst has a second slot")
         if v in (1, 2):
-            if not truth(rels, lambda x: callname(x) == "is_empty" and peel(x[2][0]) == P2, 0):
+            if not truth(rels, lambda x: callname(x) == "is_empty" and peel(x[2][0]) == P2, 0) and not got_slot(0):
                 probs.append("returns %d although dst may be empty" % v)
     # order: the store of the front slice dominates the store of the back slice and uses the lower index
     if not probs:
